@@ -176,6 +176,8 @@ def cases(tier, rng):
         z = zval(t, f, off)
         for op in UNARY:
             yield case_line(op, z)
+        yield case_line('z.show', z, 0)
+        yield case_line('z.show', z, 1)
         yield case_line('z.fromutc', off, naive(t, f))
         # the wall clock as a local input (when it is a nominal NaiveDateTime), and the UTC reading as one
         yield case_line('z.fromlocal', off, naive(t, f))
@@ -242,8 +244,10 @@ def cases(tier, rng):
     for _ in range(n):
         r = rng.random()
         z = rand_z(rng)
-        if r < 0.2:
+        if r < 0.17:
             yield case_line(rng.choice(UNARY), z)
+        elif r < 0.2:
+            yield case_line('z.show', z, rng.choice([0, 1]))
         elif r < 0.3:
             off = rand_off(rng)
             k = rng.random()
